@@ -59,6 +59,12 @@ Inductive arith := OAdd | OSub | OMul | ODiv | ORem.
 Inductive cmp := CEq | CNe | CLt | CLe | CGt | CGe.
 Inductive bitop := OAnd | OOr | OXor.
 
+Definition kind_tag (v : value) : string :=
+  match v with
+  | VBool _ => "bool" | VI32 _ => "i32" | VU32 _ => "u32" | VF32 _ => "f32" | VVec _ => "vec" | VMat _ => "mat"
+  | VArr _ => "arr" | VStruct _ => "struct" | VPtr _ _ => "ptr"
+  end.
+
 Definition arith_scalar (o : arith) (a b : value) : result value :=
   match a, b with
   | VI32 x, VI32 y =>
@@ -73,7 +79,7 @@ Definition arith_scalar (o : arith) (a b : value) : result value :=
     | ODiv => Done (VF32 (fdiv x y))
     | ORem => Fail "f32 % (truncated remainder) not modelled"
     end
-  | _, _ => Fail "arith: operand kinds"
+  | _, _ => Fail ("arith: operand kinds " ++ kind_tag a ++ "," ++ kind_tag b)%string
   end.
 
 Definition cmp_scalar (o : cmp) (a b : value) : result value :=
